@@ -10,7 +10,7 @@ echo "|---|---|---|---|" >> $out
 for d in seeded/*/; do
   id=$(basename $d); prop=${id%%-*}
   if ! git -C /repo diff --quiet; then echo "repo dirty"; exit 2; fi
-  git -C /repo apply $d/patch.diff || { echo "| $id | $prop | - | patch does not apply |" >> $out; continue; }
+  git -C /repo apply /verif/$d/patch.diff || { echo "| $id | $prop | - | patch does not apply |" >> $out; continue; }
   res=$(./check $prop --tier quick 2>&1); rc=$?
   git -C /repo checkout -- .
   lines=$(echo "$res" | grep -E "^(VIOLATION|OK)" | head -3 | sed 's/|/\\|/g' | tr '\n' ';' | sed 's/;/<br>/g')
